@@ -23,7 +23,9 @@ CHECKS = {
              "closer per step) composed with flowmark's emphasis renderer; every source string up to 5/7 symbols over {word, space, *, _, escaped "
              "star} is read by both parsers, formatted and read again, and spec/InlineTrace.tla validates reader and renderer machine against the "
              "observations and decides the equality. Table family: spec/TableRender.tla (render_table as head / delimiter / row actions; "
-             "AlignKept, CellsKept, Shape) with every table up to 2 columns x 1/2 rows in rotating source spellings, validated by spec/TableTrace.tla.",
+             "AlignKept, CellsKept, Shape) with every table up to 2 columns x 1/2 rows in rotating source spellings, validated by spec/TableTrace.tla. "
+             "Line-end family: spec/LineEnds.tla (reader -> renderer -> wrapper, one action per stage, per line end of a paragraph with nine construct kinds x "
+             "four kinds of line end; BreaksKept) replayed and validated by spec/LineEndsTrace.tla.",
         note="Trusted: the two real parsers as projections (harness/project.py), the concretiser harness/docgen.py. Inline fidelity is "
              "covered only through the tree comparison on generated texts. A failing case is excused only if it is step-for-step as-is "
              "model behaviour and an open finding's trigger is present (D2, D21, D31, D44, D46, D49).",
@@ -65,7 +67,8 @@ CHECKS = {
              "family embeds 25 kinds of inline non-prose span (code spans with backticks/spaces/quotes/dots, template tags, comments, inline "
              "HTML, autolinks, bare URLs, links/images with destinations and titles, reference and footnote labels) at several positions of a "
              "wrapping paragraph x widths x typography on/off x wrap mode x containers; TLC compares the ordered literal-span sequences of "
-             "input and output (same extractor: real marko parse + tag/comment scanner). Table family: spec/TableRender.tla / TableTrace.tla decide "
+             "input and output (same extractor: real marko parse + tag/comment scanner). Line-end family: spec/LineEnds.tla / LineEndsTrace.tla decide Verbatim per "
+             "line end inside a literal construct (no backslash invented or lost; finding D64 carved out by its trigger). Table family: spec/TableRender.tla / TableTrace.tla decide "
              "that alignments and cells (escaped pipes, code spans holding pipes) come out as authored for every table of the model.",
         note="Trusted: harness abstraction of output code blocks, marko as the reader of literal spans. Inline family is a fixed construct "
              "list (not exhaustive).",
